@@ -264,7 +264,8 @@ def _is_gt(e: Event, top: Aff, stats_root: str, idx: int, taken: bool) -> bool:
     a: Aff = c[1]
     # top - stat - 1 >= 0
     rest = a - top + ONE
-    if not rest.t or len(rest.t) != 1 or rest.c != 0 or rest.t[0][1] != -1:
+    # `top > stat` (c == 0) or `top >= stat` (c == 1): storing an equal value is a no-op, both are a max-update
+    if not rest.t or len(rest.t) != 1 or rest.c not in (0, 1) or rest.t[0][1] != -1:
         return False
     at = rest.t[0][0]
     root = at[2] if at[0] == "hav" else (at[1] if at[0] == "init" else None)
